@@ -33,10 +33,11 @@ Inductive case :=
 | CAttach (id : nat) (tb : list frame) (cause : outcome) (msg : string) (sm : source_map) (conv : string) (expected : outcome)
 | CRun (id : nat) (levels : list level) (tail : list frame) (msg conv : string) (expected : outcome)
 | CExc (id : nat) (t : exc_type) (expected : created)
-| CSmap (id : nat) (entries : list (key * origin)) (expected : source_map).
+| CSmap (id : nat) (entries : list (key * origin)) (expected : source_map)
+| CThrough (id : nat) (name : string) (facts : list bool) (expected : string).
 
 Definition case_id (c : case) : nat :=
-  match c with CScan i _ _ _ _ | CAttach i _ _ _ _ _ _ | CRun i _ _ _ _ _ | CExc i _ _ | CSmap i _ _ => i end.
+  match c with CScan i _ _ _ _ | CAttach i _ _ _ _ _ _ | CRun i _ _ _ _ _ | CExc i _ _ | CSmap i _ _ | CThrough i _ _ _ => i end.
 
 Definition smap_beq (model expected : source_map) : bool :=
   Nat.eqb (List.length model) (List.length expected)
@@ -47,8 +48,10 @@ Definition check_case (c : case) : bool :=
   | CScan _ tb sm conv e => list_beq fi_beq (stack_trace_inside tb sm conv) e
   | CAttach _ tb cause msg sm conv e => outcome_beq (attach tb cause msg sm conv) e
   | CRun _ levels tail msg conv e => outcome_beq (run attach_drop levels tail msg conv) e
-  | CExc _ t e => created_beq (create_for pass_through_types known_string_constructor_errors base_rules t) e
+  | CExc _ t e => created_beq (create_for pass_through_types known_string_constructor_errors key_error_types base_rules t) e
   | CSmap _ es e => smap_beq (create_source_map es) e
+  | CThrough _ n fs e =>
+      String.eqb (through pass_through_types known_string_constructor_errors key_error_types base_rules n fs) e
   end.
 
 Definition failing (cs : list case) : list nat := map case_id (filter (fun c => negb (check_case c)) cs).
